@@ -181,7 +181,8 @@ def run(ctx, rep):
                       "only __setitem__ (append) and complete_order (live list removal) may change the views")
     rep.floor("R2", "writes to blotter containers", n_w, 18)
     co = prog.own_method("Blotter", "complete_order")
-    body = [utext(s) for s in co.node.body if not (isinstance(s, ast.Expr) and isinstance(s.value, ast.Constant))]
+    from sa.kinds import sbody
+    body = [utext(s) for s in sbody(co.node.body)]
     rep.check(body == ["self._live_orders.remove(%s)" % co.params[1]], "R2",
               key(co, None, "complete_order removes exactly that order from the live list"), co, None, str(body))
 
@@ -273,8 +274,9 @@ def run(ctx, rep):
         f = bl.methods.get(a)
         if f is None:
             raise AnalysisError("Blotter.%s not found" % a)
-        body = [s for s in f.node.body if not (isinstance(s, ast.Expr) and isinstance(s.value, ast.Constant))]
-        tails[a] = [utext(s) for s in body[1:]]
+        from sa.kinds import sbody, ctext
+        body = sbody(f.node.body)
+        tails[a] = [ctext(s) for s in body[1:]]
         first = body[0]
         rep.check(isinstance(first, ast.Assign) and utext(first.targets[0]) == "orders"
                   and isinstance(first.value, ast.Subscript), "R5", "Blotter.%s starts from its own view" % a, f)
